@@ -24,7 +24,7 @@ ASSUMPTIONS = [
     "pairs with a rung cut-off within round-off of a metric value are excluded, as the property states",
 ]
 
-FAMILIES = ["fifo-random", "fifo-grid", "hb-stopping", "hb-promotion", "hb-pasha", "hb-cost", "sync-hb", "dehb", "pbt", "median", "rea", "moasha"]
+FAMILIES = ["fifo-random", "fifo-grid", "hb-stopping", "hb-promotion", "hb-pasha", "hb-cost", "hb-rush-stopping", "hb-rush-promotion", "sync-hb", "dehb", "pbt", "median", "rea", "moasha"]
 
 
 def flip_spec(spec):
@@ -46,7 +46,7 @@ def case_protocol(t):
     max_t = t.weighted([(2, 9), (2, 4), (1, 8), (2, None)])
     if max_t is None:
         max_t = t.int(2, 12)
-    use_mra = t.bool() if fam in ("hb-promotion", "hb-pasha", "hb-cost", "sync-hb", "dehb") else False
+    use_mra = t.bool() if fam in ("hb-promotion", "hb-pasha", "hb-cost", "hb-rush-promotion", "sync-hb", "dehb") else False
     if fam == "fifo-grid":
         cs = {"x": choice(["a", "b", "c"]), "y": randint(0, 3)}
     else:
@@ -98,10 +98,11 @@ def case_protocol(t):
         levels = ref_rung_levels(kw.get("rung_levels"), kw.get("grace_period", 1), kw.get("reduction_factor"), kw.get("rung_increment"), max_t)
         br = kw.get("brackets", 1)
         pb = kw.get("rung_system_per_bracket", False)
-        if fam == "hb-stopping":
-            ref = RefStopping(levels, max_t, "min", br, pb)
+        rush_n = (kw.get("rung_system_kwargs") or {}).get("num_threshold_candidates", 0)
+        if fam in ("hb-stopping", "hb-rush-stopping"):
+            ref = RefStopping(levels, max_t, "min", br, pb, rush_candidates=rush_n if fam == "hb-rush-stopping" else 0)
         else:
-            ref = RefPromotion(levels, max_t, "min", br, pb, variant={"hb-promotion": "promotion", "hb-pasha": "pasha", "hb-cost": "cost_promotion"}[fam])
+            ref = RefPromotion(levels, max_t, "min", br, pb, variant={"hb-promotion": "promotion", "hb-pasha": "pasha", "hb-cost": "cost_promotion", "hb-rush-promotion": "rush_promotion"}[fam], rush_candidates=rush_n)
     bracket_of = {}
     labels = {fam}
     nontrivial = False
